@@ -6,7 +6,8 @@
 // vrt.cpp, which defines those symbols itself, plus pthread_create/join, pthread_mutex_*,
 // pthread_cond_*, syscall(SYS_futex), sched_yield, usleep/nanosleep and clock_gettime.
 // Between vrt_begin() and vrt_end() exactly one thread runs at a time; every intercepted call is
-// a scheduling point whose choice comes from a seeded PRNG; time is virtual; "all threads
+// a scheduling point whose choice comes from a seeded PRNG; time is virtual (VRT_TICK_NS=<n>, default 0:
+// additionally n ns pass at every scheduling point, so a sleeper wakes although other threads keep running); "all threads
 // blocked, no timed sleeper" is a deadlock verdict.  Operations on locations named with
 // vrt_name() are appended to a trace (one line per action) that the Lean model replays in
 // lock-step.  No source hooks in /repo are needed.
@@ -57,6 +58,9 @@ uint64_t vrt_switches();
 uint64_t vrt_now();
 // number of races found by the payload monitor in the last section
 uint64_t vrt_races();
+// number of threads of the controlled section (including the caller) that have not finished yet;
+// lets a harness wait for detached threads before vrt_end()
+int vrt_live();
 // opt-in (default off): trace every controlled clock_gettime as `<tid> ev clock <ns>` and append
 // ` to=<ns>` (relative timeout) to the `fwait` line of a timed futex wait
 void vrt_trace_clock(int on);
